@@ -139,7 +139,12 @@ def observe(st, seed, light=False):
             probs.append(("op:apply:%s:mutation" % kind, "apply changed its argument"))
     if not op_unchanged(st):
         probs.append(("op:observe:mutation", "asmatrix/apply changed the operator"))
-    return probs
+    seen, out = set(), []
+    for k, m in probs:
+        if k not in seen:
+            seen.add(k)
+            out.append((k, m))
+    return out
 
 
 def op_step(st, ev, seed, salt):
